@@ -17,7 +17,9 @@ RULE = ("the real regularizer objects (tfl.lattice_layer.LaplacianRegularizer/To
         "list / tuple (zeros in some dimensions, all-zero and empty lists included); kernels random dyadic, "
         "constant, additively separable, single spike; per-dimension amounts of the wrong length must be "
         "rejected with ValueError at construction (object and layer). PWL: 2-7 rows, units 1-3, cyclic or not, amounts "
-        "0/0.5/1/2 (int or float); kernels random, constant / linear / quadratic keypoint outputs. ~10% of the "
+        "0/0.5/1/2 (int or float); kernels random, constant / linear / quadratic keypoint outputs (class suffix _poly; "
+        "non-cyclic: the Hessian / wrinkle must vanish; is_cyclic: they must equal the norm of the wrap-around "
+        "differences alone, closed form of C13_cyclic_hessian_on_linear_index / C13_cyclic_wrinkle_on_quadratic_index). ~10% of the "
         "cases run in float32 (class suffix _f32): float32 tensors / variables, and float32 Lattice / PWLCalibration "
         "layers (the layers' default dtype), same dyadic kernels, tolerance 1e-5. In Coq "
         "both the code-shaped model and the documented formula are evaluated on the same kernel and compared "
@@ -185,7 +187,8 @@ def gen_descs(ctx):
       amounts = [0.5, 1.0, 2.0, 1, 2, 0.25]
       l1 = rng.choice(amounts) if mode in ("l1", "both") else rng.choice([0.0, 0])
       l2 = rng.choice(amounts) if mode in ("l2", "both") else rng.choice([0.0, 0])
-      kclass = rng.choice(["random", "random", "random", "random", "constant", "linear", "quadratic"])
+      kclass = rng.choice(["random", "random", "random", "random", "constant", "linear", "quadratic"] +
+                          (["linear", "quadratic"] if kind != "pwl_laplacian" else []))
       via = "layer" if (rng.random() < 0.25 and (l1 or l2)) else "object"
       out.append(dict(kind=kind, sizes=[], sizes_form="list", units=units,
                       l1={"form": "scalar", "v": l1}, l2={"form": "scalar", "v": l2},
@@ -338,6 +341,31 @@ def _reference(d):
   return tot
 
 
+def _cyclic_wrap_sum(d):
+  """is_cyclic Hessian / wrinkle on keypoint outputs linear / quadratic in the index: the l1/l2 norm of the wrap-around
+  differences alone (C13_cyclic_hessian_on_linear_index: k b, -(k b); C13_cyclic_wrinkle_on_quadratic_index:
+  -(k b + k^2 c), 2 k b + (2 k^2 - 2 k) c, -(k b) + (2 k - k^2) c for y_i = a + b i + c i^2), summed over the units.
+  Written from the theorems' closed form, not from the difference formula. None where no closed form is proved."""
+  kind, kc, k = d["kind"], d["kclass"], len(d["kernel"])
+  if not d["cyclic"] or kc not in ("linear", "quadratic"):
+    return None
+  l1, l2 = Fraction(d["l1"]["v"]), Fraction(d["l2"]["v"])
+  tot = Fraction(0)
+  for u in range(d["units"]):
+    hs = [Fraction(d["kernel"][r][u]) for r in range(1, k)]
+    # heights h + c' * i  <=>  y_i = bias + (h - c'/2) i + (c'/2) i^2
+    cp = (hs[1] - hs[0]) if len(hs) >= 2 else Fraction(0)
+    b, c = hs[0] - cp / 2, cp / 2
+    if kind == "pwl_hessian" and c == 0 and k >= 2:
+      terms = [k * b, -(k * b)]
+    elif kind == "pwl_wrinkle" and k >= 3:
+      terms = [-(k * b + k * k * c), 2 * k * b + (2 * k * k - 2 * k) * c, -(k * b) + (2 * k - k * k) * c]
+    else:
+      return None
+    tot += sum(l1 * abs(t) + l2 * t * t for t in terms)
+  return tot
+
+
 def _close(a, b, tol=TOL):
   return abs(a - b) <= tol * max(1.0, abs(b))
 
@@ -369,13 +397,23 @@ def eval_cases(ctx, descs):
       elif not _close(out, ref, tol_of(d)):
         fail = "regularizer %r differs from the documented sum %r" % (out, ref)
       else:
+        # the Hessian / wrinkle zero clauses carry the NON-CYCLIC guard (C13_zero_clauses_non_cyclic_guard); for
+        # is_cyclic the clause is false (C13_*_cyclic_refuted) and the value is the norm of the wrap-around differences
+        non_cyclic = not d["cyclic"]
         zero_expected = (
             (d["kclass"] == "constant") or
             (kind == "lat_torsion" and d["kclass"] == "separable") or
-            (kind == "pwl_hessian" and d["kclass"] == "linear" and not d["cyclic"]) or
-            (kind == "pwl_wrinkle" and d["kclass"] in ("linear", "quadratic") and not d["cyclic"]))
+            (kind == "pwl_hessian" and d["kclass"] == "linear" and non_cyclic) or
+            (kind == "pwl_wrinkle" and d["kclass"] in ("linear", "quadratic") and non_cyclic))
         if zero_expected and abs(out) > tol_of(d):
-          fail = "regularizer should vanish on a %s kernel but returned %r" % (d["kclass"], out)
+          fail = "regularizer should vanish on a %s %s kernel but returned %r" % (
+              "cyclic" if d["cyclic"] else "non-cyclic", d["kclass"], out)
+        wrap = _cyclic_wrap_sum(d)
+        if fail is None and wrap is not None:
+          info["cyclic_wrap_around_sum"] = float(wrap)
+          if not _close(out, float(wrap), tol_of(d)):
+            fail = ("cyclic %s regularizer on a %s kernel is %r, the wrap-around differences alone give %r" % (
+                kind[4:], d["kclass"], out, float(wrap)))
       if fail is None and _truthy(d["l1"]) and _truthy(d["l2"]) and d["via"] == "object":
         # linear in (l1, l2): R(l1, l2) = R(l1, 0) + R(0, l2)
         try:
@@ -397,6 +435,8 @@ def eval_cases(ctx, descs):
     else:
       klass = "pwl_%s_k%s_%s%s" % (kind[4:7], "2" if len(d["kernel"]) == 2 else "3" if len(d["kernel"]) == 3 else "4+",
                                    "cyc" if d["cyclic"] else "lin", "_layer" if d["via"] == "layer" else "")
+      if d["kclass"] in ("linear", "quadratic") and kind != "pwl_laplacian":
+        klass += "_poly"
     if is_f32(d):
       klass += "_f32"
     cases.append(Case(d, coq=coq, pred_fail=fail, nontrivial=bool(out), klass=klass, info=info))
